@@ -20,7 +20,11 @@ RULE = ('three streams: (a) random operation sequences (add/get/get_category/rel
         'arguments given (documented normalisations by value; the key set of the entry = the keys the site stores and the keys '
         'the documentation promises; also through 1-2 helper layers passing _backframes, with one-shot iterators, and in pairs '
         'of statements sharing an object); (c) include-nesting (children included directly or by an add-on directive) '
-        'programs that override statements. non-trivial = an op sequence containing at least one relate/register-with-relation '
+        'programs that override statements (route statements: the entry is the live route of the mapper); (d) one statement '
+        'given several values of a multi-valued argument, statements executed as compiled configuration TEXT, pairs probing which '
+        'statement is in effect (URL static views under two route prefixes; a tween named in the settings and by add_tween); '
+        '(e) histories of nested action methods (add-on directives registering entries, calling each other with/without _info, '
+        'raising, catching) against the extracted model of the action-info stack. non-trivial = an op sequence containing at least one relate/register-with-relation '
         'and one read-back, or a directive scenario with at least 2 argument-carrying keys; distinct by full case')
 ASSUMPTIONS = ['hash((category, discriminator)) is injective on the discriminators used (dict-key equality of introspectables = same '
                'category and discriminator, then identity or dict ==); the second dict key discriminator_hash is not modelled',
@@ -34,7 +38,9 @@ TRUSTED = ['translator harness/c20/translate.py: control flow of Introspector.ad
            'shape pins only for what is not translated: Introspector.__init__/categorized, Introspectable.__init__/__hash__/'
            'discriminator_hash/..., undefer, action_info, action_method, with_package, and execute_actions / action() with the '
            'translated fragment cut out (pins_masked.json)',
-           'introspectable-table extractor harness/c20/extract.py (validated by the directive-scenario stream)',
+           'introspectable-table extractor harness/c20/extract.py (validated by the directive-scenario stream), including its '
+           'slices of the entry / action discriminator expressions (pins_discriminators.json: text pins) and the root-name analysis',
+           'hand model of the action-info stack (action_method wrapper, action_info; both shape-pinned), validated by the nest stream',
            'docs/narr/introspector.rst parsed for documented categories/keys']
 TECHNIQUE = ('Coq proof over an Introspector state machine; the executable program is REGENERATED from registry.py / actions.py on '
              'every run by a fail-closed ast->Gallina translator (state-passing, exceptions with partial states) and proved equal '
@@ -50,19 +56,31 @@ TECHNIQUE = ('Coq proof over an Introspector state machine; the executable progr
              'statements of the modelled classes, every introspectable variable bound once per path and never read by a closure '
              'when shared, no mutable defaults in entry-building functions); statements issued through helpers that pass '
              '_backframes, through add-on directives that include(), in pairs sharing an object, with one-shot iterators; '
+             'discriminator facts (slices of the entry and action discriminator of every site pinned; every parameter the action '
+             'discriminator depends on reaches the entry discriminator; a directive issuing several actions discriminates each; no '
+             'loop variable read outside its loop); a Coq model of the action-info stack run against nested add-on directives; '
              'tools/coverage_map.py --property C20 reports 0 untied functions in the anchor files')
 LEVEL_TEXT = ('Theorems: the program regenerated from the current source equals the reference model for every method and on every '
               'operation sequence (C20_generated_*_is_model, C20_generated_run_is_model); every key of every regenerated directive '
               'table that names a directive argument records that argument or a normalisation of it, a boolean literal counting '
               'only on a path that decides the argument (keys_faithful); every documented category/key is recorded by a directive '
-              'of that category; every site hands its entry to an action and runs under an action method (sites_wired); for the Introspector state machine, for every operation sequence: '
+              'of that category; every site hands its entry to an action and runs under an action method (sites_wired); the entry '
+              'discriminator of every site depends on every parameter its action discriminator depends on '
+              '(entry_key_determines_action_key), and in the commit model an executed entry whose key no other executed entry shares '
+              '-- in particular entries keyed injectively by pairwise distinct conflict keys -- is what the introspector holds '
+              '(entry_not_displaced, injective_keys_keep_entries); the action-info stack is restored by every call, returning or '
+              'raising, every entry made under any nesting of action methods carries the info of the outermost statement, also in '
+              'histories with failures on one configurator (ainfo_stack_balanced, statement_entries_point_at_statement, '
+              'history_statements_point_at_themselves); for the Introspector state machine, for every operation sequence: '
               'relations are symmetric and exact, get returns the latest registration, remove erases the entry, disabled '
               'introspection records nothing, only executed actions are recorded -- the last four also restated about the '
               'regenerated program (..._generated).')
 LEVEL_NOTE = ('Trusted: Coq kernel; the translator and its primitive table (leaves), the table extractor (ast) and its normal forms; '
               'C20_generated_remove_is_model needs KeysOwn (entries stored under their own key), which holds in every reachable '
               'state (C20_reachable_invariants); the second dict key discriminator_hash and the action_info attribute are erased '
-              'by the table; which actions execute is taken from the C04 commit model / the real run (C04 keeps whole-function '
+              'by the table; the discriminator slices are text pins plus a name-level dependency analysis (not a semantic '
+              'injectivity proof of the Python expressions); the action-info model is hand-written (pins), its frame extraction '
+              '(traceback.extract_stack) is an input; which actions execute is taken from the C04 commit model / the real run (C04 keeps whole-function '
               'pins of action() and execute_actions).')
 
 # directive/key pairs documented as carrying something else than the same-named argument
@@ -197,6 +215,35 @@ def facts(src):
     exc = [('add_request_method.intr', 'property'), ('add_view.tmpl_intr', 'name')]
     lines.append('Definition doc_exceptions : list (text * text) := [%s].\n' % '; '.join(
         '(%s, %s)' % (F.coq_text(a), F.coq_text(b)) for a, b in exc))
+    # DISCRIMINATORS: the key under which an entry is filed and the key by which its action conflicts are computed by two
+    # expressions; both slices (expression + every binding it depends on) are pinned as text, and the parameters the action
+    # discriminator depends on must all reach the entry discriminator (Model: disc_ok; otherwise two statements that do
+    # not conflict could share one slot of the introspector)
+    drows, dpr = X.disc_facts(src)
+    problems += dpr
+    try:
+        with open(os.path.join(HERE, 'pins_discriminators.json')) as f:
+            want_d = json.load(f)
+    except (OSError, ValueError):
+        want_d = {}
+        problems.append('cannot read harness/c20/pins_discriminators.json')
+    got_d = {r_['site']: {'entry': r_['intr'], 'actions': [a_['text'] for a_ in r_['actions']]} for r_ in drows}
+    for k_ in sorted(set(want_d) | set(got_d)):
+        if want_d.get(k_) != got_d.get(k_):
+            w_, g_ = want_d.get(k_) or {}, got_d.get(k_) or {}
+            which = 'entry discriminator' if w_.get('entry') != g_.get('entry') else 'discriminators of the actions'
+            problems.append('%s: the %s (with the bindings they depend on) changed: %s (pinned: %s)' % (
+                k_, which, json.dumps(g_.get('entry') if which.startswith('entry') else g_.get('actions'))[:300],
+                json.dumps(w_.get('entry') if which.startswith('entry') else w_.get('actions'))[:300]))
+    for r_ in drows:
+        miss = sorted(set(r_['action_param_roots']) - set(r_['intr_roots']))
+        if miss:
+            problems.append('%s: the action discriminator depends on %s but the entry discriminator does not: statements that '
+                            'differ only there do not conflict and yet share one entry' % (r_['site'], miss))
+    lines.append('Definition sites_disc : list (text * (list text * list text)) := [\n' + ';\n'.join(
+        '  (%s, (%s, %s))' % (F.coq_text('.'.join(r_['site'].split('#')[0].split('.')[-2:])), F.coq_texts(r_['action_param_roots']),
+                              F.coq_texts(r_['intr_roots'])) for r_ in drows) + '].\n')
+    summary['discriminator_rows'] = len(drows)
     lines.append('Definition documented : list (text * list text) := [\n' + ';\n'.join(
         '  (%s, %s)' % (F.coq_text(c), F.coq_texts(ks)) for c, ks in doc.items()) + '].\n')
     lines.append('\n(* ---- regenerated from src/pyramid/registry.py and src/pyramid/config/actions.py by harness/c20/translate.py *)\n')
@@ -473,9 +520,10 @@ def _scenarios():
         fn.nflags = nflags
         return fn
 
-    def add_static_view(variant):
-        spec = 'harness.c20:locale/'
-        return (lambda c: c.add_static_view(name='statv', path=spec, cache_max_age=77)), {'name': 'statv', 'spec': spec}
+    def add_static_view(variant, as_iter=False, over=None):
+        spec = (over or {}).get('spec', 'harness.c20:locale/')
+        nm = (over or {}).get('name', 'statv')
+        return (lambda c: c.add_static_view(name=nm, path=spec, cache_max_age=77)), {'name': nm, 'spec': spec}
     S['add_static_view'] = ('add', custom(0, add_static_view))
 
     def add_cache_buster(variant):
@@ -545,6 +593,15 @@ def _scenarios():
     P['add_view_predicate'] = ('same', 0, 0, {'name': 'zz_view_pred2'})
     P['add_static_view'] = ('prefix', 0, 0, None)
     P['add_route/prefix'] = ('prefix', 0, 0, None)
+    # a view name that is a URL gets no route, so a route prefix does not apply to it: the same URL under two prefixes is ONE
+    # registration (the later statement replaces the earlier one); which statements are in effect is probed with static_url
+    P['add_static_view/url'] = ('prefix-probe', 0, 0, {'name': 'http://cdn.example.test/st', 'spec': 'harness.c20:assets_b/'},
+                                {'name': 'http://cdn.example.test/st'})
+    P['add_static_view/url-one-prefix'] = ('prefix-probe', 0, 0, {'name': '//cdn2.example.test/st', 'spec': 'harness.c20:assets_b/'},
+                                           {'name': 'local-statv'})
+    # the same tween factory named at two levels: in the pyramid.tweens setting (explicit) and by add_tween (implicit);
+    # the two statements do not conflict and both are registered
+    P['add_tween/explicit-and-implicit'] = ('settings', 0, 0, None)
     for fam in ('view', 'route', 'subscriber'):
         S['add_%s_predicate' % fam] = ('_add_predicate', simple(
             'add_%s_predicate' % fam, name='zz_%s_pred' % fam, factory=mk(fam + '_pred_factory'),
@@ -655,7 +712,17 @@ def _run_directive(case):
             want_line[0] = _sys._getframe().f_lineno + 1
             (layer(c_) if layers == 2 else inner(c_, _backframes=bf))          # <- the statement
     before = {(cn, id(e['introspectable'])) for cn, items in c.introspector.categorized() for e in items}
-    call(c)
+    execd = None
+    if case.get('execd'):
+        # the statement is configuration TEXT compiled and executed (stored / generated / templated configuration, an
+        # interactive prompt, sourceless deployments): no source line can be read for its frame, the file name, line number
+        # and function of the statement are known all the same
+        execd = ('<c20 configuration text %s>' % name, 3)
+        code = compile('\n\nc.%s(**args)\n' % build.layerable, execd[0], 'exec')
+        given = {k: v for k, v in args.items()}
+        exec(code, {'c': c, 'args': given})
+    else:
+        call(c)
     c.commit()
     out = []
     for cn, items in c.introspector.categorized():
@@ -674,6 +741,9 @@ def _run_directive(case):
             ai = intr.action_info
             fn = getattr(ai, 'file', None) or ''
             here = fn.endswith(os.path.join('harness', 'c20', 'prop.py'))
+            if execd is not None:
+                here = fn == execd[0]
+                want_line[0] = execd[1]
             if here and want_line[0] is not None and getattr(ai, 'line', None) != want_line[0]:
                 out.append([cn, '@action_info', ['another-line-of-the-harness'], ''])
             else:
@@ -724,14 +794,30 @@ def _run_pair(case):
     from pyramid.config import Configurator
     from pyramid.exceptions import ConfigurationConflictError, ConfigurationError
     scenarios()
-    mode, v1, v2, over = _PAIRS[case['name']]
+    mode, v1, v2, over = _PAIRS[case['name']][:4]
+    over1 = _PAIRS[case['name']][4] if len(_PAIRS[case['name']]) > 4 else None
     scen = case['name'].split('/')[0]
     func, build = scenarios()[scen]
-    call1, args1 = build(v1)
+    call1, args1 = build(v1, False, over1) if over1 else build(v1)
     call2, args2 = build(v2, False, over) if over else build(v2)
+    if mode == 'settings':
+        # the first statement is made by the constructor from the settings (after its own commit: it is pending with ours)
+        c = Configurator(settings={'pyramid.tweens': args1['tween_factory']}, autocommit=False)
+        call1(c)
+        try:
+            c.commit()
+        except ConfigurationConflictError:
+            return [1, 0, 0]
+        want = EXPECT_CATEGORY[scen]
+        ents = [e['introspectable'] for e in (c.introspector.get_category(want) or [])
+                if _match(e['introspectable'].get('factory'), args1['tween_factory'], True)]
+        ok1 = [i for i, e in enumerate(ents) if e.get('type') == 'implicit' and _carries(func, want, e, args1, scen)]
+        ok2 = [i for i, e in enumerate(ents) if e.get('type') == 'explicit' and e.get('under') is None and e.get('over') is None]
+        m = 2 if any(a != b for a in ok1 for b in ok2) else (1 if (ok1 or ok2) else 0)
+        return [0, len(ents), m]
     c = Configurator(autocommit=False)
     before = {id(e['introspectable']) for cn, items in c.introspector.categorized() for e in items}
-    if mode == 'prefix':
+    if mode in ('prefix', 'prefix-probe'):
         def inc_a(cfg):
             call1(cfg)
 
@@ -751,11 +837,140 @@ def _run_pair(case):
     ok1 = [i for i, e in enumerate(ents) if _carries(func, want, e, args1, scen)]
     ok2 = [i for i, e in enumerate(ents) if _carries(func, want, e, args2, scen)]
     m = 2 if any(a != b for a in ok1 for b in ok2) else (1 if (ok1 or ok2) else 0)
+    if mode == 'prefix-probe':
+        # which of the two statements is in effect: URL generation for its asset spec works
+        from pyramid.request import Request
+        eff = []
+        for a_ in (args1, args2):
+            r_ = Request.blank('/')
+            r_.registry = c.registry
+            try:
+                u = r_.static_url(a_['spec'] + 'x.css')
+                eff.append(bool(u))
+            except ValueError:
+                eff.append(False)
+        return [0, len(ents), m, eff, [bool(ok1), bool(ok2)]]
     return [0, len(ents), m]
 
 
+# ------------------------------------------------------------------ one statement given several values (*specs)
+MULTI = {'add_translation_dirs': ['harness.c20:locale/', 'harness.c20:locale/de/', 'harness.c20:locale/de/LC_MESSAGES/']}
+
+
+def _run_multi(case):
+    """one statement with several values of a multi-valued argument: every value gets an entry of its own that records
+    ITS value (obs: per entry [index of the value the entry's directory belongs to, index of the value it records, info ok])"""
+    from pyramid.config import Configurator
+    specs = [MULTI[case['name']][i] for i in case['order']]
+    c = Configurator(autocommit=False)
+    before = {id(e['introspectable']) for cn, items in c.introspector.categorized() for e in items}
+    import sys as _sys
+    line = _sys._getframe().f_lineno + 1
+    getattr(c, case['name'])(*specs)
+    c.commit()
+    pkgdir = os.path.dirname(HERE)
+    out = []
+    for e in c.introspector.get_category(EXPECT_CATEGORY[case['name']]) or []:
+        i = e['introspectable']
+        if id(i) in before:
+            continue
+        def where(sp):
+            return os.path.normpath(os.path.join(pkgdir, 'c20', sp.split(':', 1)[1]))
+        d = [k for k, sp in enumerate(specs) if os.path.normpath(str(i.get('directory'))) == where(sp)]
+        r = [k for k, sp in enumerate(specs) if i.get('spec') in (sp, sp.rstrip('/'))]
+        ai = i.action_info
+        ok = int((getattr(ai, 'file', None) or '').endswith(os.path.join('harness', 'c20', 'prop.py')) and getattr(ai, 'line', None) == line)
+        out.append([d[0] if d else -1, r[0] if r else -1, ok])
+    return sorted(out)
+
+
+# ------------------------------------------------------------------ nested action methods (the action-info stack)
+def gen_nest(rng):
+    def call(depth):
+        body = []
+        for _ in range(rng.choice([1, 1, 2, 3])):
+            if depth < 3 and rng.random() < 0.45:
+                body.append(['sub', call(depth + 1), rng.random() < 0.7])
+            else:
+                body.append(['probe'])
+        return {'given': rng.choice([None, None, rng.randrange(1, 9)]), 'body': body, 'fails': rng.random() < 0.25}
+    return {'kind': 'nest', 'calls': [call(0) for _ in range(rng.choice([1, 2, 3]))]}
+
+
+def _nest_wire(call):
+    return [[] if call['given'] is None else [call['given']],
+            [[0] if it[0] == 'probe' else [1, _nest_wire(it[1]), 1 if it[2] else 0] for it in call['body']],
+            1 if call['fails'] else 0]
+
+
+def _nest_valid(call, depth=0):
+    return depth <= 6 and set(call) == {'given', 'body', 'fails'} and isinstance(call['fails'], bool) \
+        and (call['given'] is None or (isinstance(call['given'], int) and 0 <= call['given'] < 1000)) \
+        and all((it == ['probe']) or (len(it) == 3 and it[0] == 'sub' and isinstance(it[2], bool) and _nest_valid(it[1], depth + 1))
+                for it in call['body'])
+
+
+def _run_nest(case):
+    """statements on one configurator; every call is an action method (add_directive, action_wrap=True) that registers
+    entries (`probe`) and calls further action methods, some with `_info`, some failing, some failures caught"""
+    import sys as _sys
+    from pyramid.config import Configurator
+    c = Configurator(autocommit=False)
+
+    class Boom(Exception):
+        pass
+    counter, entries, lines, cur = [0], [], {'top': None, 'body': None}, [0]
+
+    def define(call_):
+        idx = counter[0]
+        counter[0] += 1
+        name = 'c20_nest_%d' % idx
+        subs = [(it, define(it[1]) if it[0] == 'sub' else None) for it in call_['body']]
+
+        def fn(config):
+            for it, sub in subs:
+                if it[0] == 'probe':
+                    intr = config.introspectable('c20 nest', len(entries), 't', 'ty')
+                    entries.append((cur[0], intr))
+                    config.action(None, introspectables=(intr,))
+                else:
+                    kw = {'_info': ('nest', it[1]['given'], '', '')} if it[1]['given'] is not None else {}
+                    try:
+                        lines['body'] = _sys._getframe().f_lineno + 1
+                        getattr(config, sub)(**kw)
+                    except Boom:
+                        if not it[2]:
+                            raise
+            if call_['fails']:
+                raise Boom()
+        c.add_directive(name, fn, action_wrap=True)
+        return name
+
+    def tok(ai):
+        f, l = getattr(ai, 'file', None), getattr(ai, 'line', None)
+        if f is None:
+            return 0
+        if f == 'nest':
+            return 10 + l
+        if str(f).endswith(os.path.join('harness', 'c20', 'prop.py')):
+            return 1 if l == lines['top'] else 2 if l == lines['body'] else 98
+        return 99
+    names = [define(call_) for call_ in case['calls']]
+    for k, (call_, name) in enumerate(zip(case['calls'], names)):
+        cur[0] = k
+        kw = {'_info': ('nest', call_['given'], '', '')} if call_['given'] is not None else {}
+        try:
+            lines['top'] = _sys._getframe().f_lineno + 1
+            getattr(c, name)(**kw)
+        except Boom:
+            pass
+    after = tok(c.action_info)
+    c.commit()
+    return [[[tok(i.action_info) for k2, i in entries if k2 == k] for k in range(len(case['calls']))], after]
+
+
 # ------------------------------------------------------------------ include-nesting programs
-KINDS = ['renderer', 'defperm', 'perm', 'session']
+KINDS = ['renderer', 'defperm', 'perm', 'session', 'route']
 
 
 def gen_program(rng):
@@ -764,7 +979,7 @@ def gen_program(rng):
     n_st = rng.choice([2, 3, 4, 5, 6])
     stmts = []
     for k in range(n_st):
-        kind = rng.choice(['renderer', 'renderer', 'defperm', 'perm', 'session'])
+        kind = rng.choice(['renderer', 'renderer', 'defperm', 'perm', 'session', 'route', 'route'])
         stmts.append({'kind': kind, 'n': rng.randrange(2), 'node': rng.randrange(n_nodes),
                       'via_pkg': rng.random() < 0.25})
     nodes = [[] for _ in range(n_nodes)]
@@ -834,6 +1049,8 @@ def _run_program(case):
                     tgt.set_default_permission('dperm%d' % k, _info=info)
                 elif st['kind'] == 'perm':
                     tgt.add_permission('perm%d' % k, _info=info)
+                elif st['kind'] == 'route':
+                    tgt.add_route('rt%d' % st['n'], '/k%d/{x}' % k, _info=info)
                 else:
                     tgt.set_session_factory(_Tag(k), _info=info)
 
@@ -857,10 +1074,17 @@ def _run_program(case):
                     and i['value'].lstrip('d').startswith('perm'):
                 k = int(i['value'].lstrip('d')[4:])
                 disc = '' if cn == 'default permission' else i['value']
+            live = True
+            if cn == 'routes' and str(i.get('name', '')).startswith('rt') and str(i.get('pattern', '')).startswith('/k'):
+                # the entry describes the route that is in effect: its object is the route the mapper holds under the name
+                k, disc = int(i['pattern'][2:].split('/')[0]), i['name']
+                rt = c.get_routes_mapper().get_route(i['name'])
+                # (after a commit that ended in a conflict the later phases did not run: nothing to compare)
+                live = outcome != 0 or (rt is not None and i.get('object') is rt and rt.pattern == i['pattern'])
             if k is None:
                 continue
             ai = i.action_info
-            ok = int(getattr(ai, 'line', None) == k and getattr(ai, 'file', None) == 'stmt')
+            ok = int(getattr(ai, 'line', None) == k and getattr(ai, 'file', None) == 'stmt' and live)
             ents.append([cn, disc, str(k), ok])
     return [outcome, sorted(ents)]
 
@@ -889,8 +1113,8 @@ def _program_wire(case):
     for k in order:
         st = case['stmts'][k]
         kind = st['kind']
-        disc = {'renderer': [10 + st['n']], 'defperm': [1], 'session': [2], 'perm': []}[kind]
-        o = {'renderer': -20, 'defperm': -20, 'session': 0, 'perm': 0}[kind]
+        disc = {'renderer': [10 + st['n']], 'defperm': [1], 'session': [2], 'perm': [], 'route': [20 + st['n']]}[kind]
+        o = {'renderer': -20, 'defperm': -20, 'session': 0, 'perm': 0, 'route': -10}[kind]
         acts.append([k, disc, path(st['node']), o])
         if kind == 'renderer':
             il = [[['renderer factories', '.x%d' % st['n'], str(k), 2 * k], []]]
@@ -898,6 +1122,8 @@ def _program_wire(case):
             il = [[['default permission', '', str(k), 2 * k], []], [['permissions', 'dperm%d' % k, str(k), 2 * k + 1], []]]
         elif kind == 'perm':
             il = [[['permissions', 'perm%d' % k, str(k), 2 * k], []]]
+        elif kind == 'route':
+            il = [[['routes', 'rt%d' % st['n'], str(k), 2 * k], []]]
         else:
             il = [[['session factory', '', str(k), 2 * k], []]]
         intrs.append([k, il])
@@ -994,6 +1220,7 @@ def generate(rng, tier, n):
             yield {'kind': 'directive', 'name': name, 'variant': 0, 'iter': True}
         lay = getattr(scenarios()[name][1], 'layerable', None)
         if lay:
+            yield {'kind': 'directive', 'name': name, 'variant': 0, 'execd': True}
             # helpers layered on the directive (traceback.extract_stack(limit=4) reaches 2 + _backframes <= 4 frames)
             for n_layers in ((1,) if lay in _viewdefaults_directives() else (1, 2)):
                 yield {'kind': 'directive', 'name': name, 'variant': 0, 'layers': n_layers}
@@ -1003,9 +1230,15 @@ def generate(rng, tier, n):
                 yield {'kind': 'directive', 'name': name, 'variant': list(combo)}
     for name in sorted(_PAIRS):
         yield {'kind': 'pair', 'name': name}
+    for name in sorted(MULTI):
+        for order in ([0, 1], [1, 0], [2, 0, 1], [0]):
+            yield {'kind': 'multi', 'name': name, 'order': order}
     for j in range(n):
         if j % 10 == 9:
             yield gen_viewrels(rng)
+            continue
+        if j % 10 == 4:
+            yield gen_nest(rng)
             continue
         yield gen_program(rng) if j % 3 == 0 else gen_relcase(rng) if j % 3 == 1 else gen_ops(rng)
 
@@ -1021,10 +1254,18 @@ def valid(case):
         if case['kind'] == 'pair':
             scenarios()
             return case == {'kind': 'pair', 'name': case['name']} and case['name'] in _PAIRS
+        if case['kind'] == 'nest':
+            return set(case) == {'kind', 'calls'} and len(case['calls']) >= 1 and all(_nest_valid(x) for x in case['calls'])
+        if case['kind'] == 'multi':
+            return set(case) == {'kind', 'name', 'order'} and case['name'] in MULTI and len(case['order']) >= 1 \
+                and len(set(case['order'])) == len(case['order']) and all(x in range(len(MULTI[case['name']])) for x in case['order'])
         if case['kind'] == 'directive':
             if case['name'] not in scenarios():
                 return False
             v = case['variant']
+            if 'execd' in case and not (case['execd'] is True and 'layers' not in case and 'iter' not in case
+                                        and getattr(scenarios()[case['name']][1], 'layerable', None)):
+                return False
             if 'layers' in case and not (case['layers'] in (1, 2) and getattr(scenarios()[case['name']][1], 'layerable', None)):
                 return False
             if isinstance(v, list):
@@ -1076,6 +1317,8 @@ def to_wire(case):
         return [0, _ops_wire(case['ops'])]
     if case['kind'] == 'program':
         return _program_wire(case)
+    if case['kind'] == 'nest':
+        return [3, [_nest_wire(x) for x in case['calls']]]
     return [1]          # tables / directive / viewrels: the model side is the regenerated tables
 
 
@@ -1103,6 +1346,10 @@ def from_wire(case, raw):
         return {'model': ['documented-but-not-recorded', sorted(raw[2])], 'spec': ['documented-but-not-recorded', []]}
     if case['kind'] == 'viewrels':
         return {'model': None, 'spec': _viewrels_spec(case)}
+    if case['kind'] == 'multi':
+        return {'model': None, 'spec': [[k, k, 1] for k in range(len(case['order']))]}
+    if case['kind'] == 'nest':
+        return {'model': raw, 'spec': None}
     if case['kind'] == 'program':
         if raw == [['bad']] or len(raw) != 2 or raw[1] in (['K'], ['V']):
             return {'model': ['MODEL', raw], 'spec': None}
@@ -1113,7 +1360,7 @@ def from_wire(case, raw):
 
 
 def equiv(case, obs, model):
-    return case['kind'] in ('directive', 'viewrels', 'pair')      # the directive stream is judged by spec_holds against the table
+    return case['kind'] in ('directive', 'viewrels', 'pair', 'multi')      # the directive stream is judged by spec_holds against the table
 
 
 def run_impl(case):
@@ -1127,6 +1374,10 @@ def run_impl(case):
         return _run_viewrels(case)
     if case['kind'] == 'pair':
         return _run_pair(case)
+    if case['kind'] == 'multi':
+        return _run_multi(case)
+    if case['kind'] == 'nest':
+        return _run_nest(case)
     if case['kind'] == 'tables':
         import harness.common.build as B
         doc = X.documented(os.path.dirname(B.SRC))
@@ -1148,12 +1399,25 @@ def spec_holds(case, obs, spec):
             return False
         return True if (a or b) else None
     if case['kind'] == 'pair':
-        if not (isinstance(obs, list) and len(obs) == 3):
+        if not (isinstance(obs, list) and len(obs) in (3, 5)):
             return False
         if obs[0] != 0:
             return None             # the two statements conflict: the property says nothing
+        if len(obs) == 5:
+            # the statements in effect (probed) are exactly the ones that have an entry of their own; nothing else is recorded
+            eff = obs[3]
+            return obs[1] == sum(1 for x in eff if x) and obs[4] == eff and (obs[2] == 2 if all(eff) else True) and any(eff)
         return obs[1] >= 2 and obs[2] == 2      # both took effect: an entry of its own for each
-    if case['kind'] in ('tables', 'program', 'viewrels'):
+    if case['kind'] == 'nest':
+        # the property's clause, stated without the model: every entry points at the statement that produced it
+        if not (isinstance(obs, list) and len(obs) == 2 and isinstance(obs[0], list) and len(obs[0]) == len(case['calls'])):
+            return False
+        for call_, o in zip(case['calls'], obs[0]):
+            own = 1 if call_['given'] is None else 10 + call_['given']
+            if any(x != own for x in o):
+                return False
+        return obs[1] == 0
+    if case['kind'] in ('tables', 'program', 'viewrels', 'multi'):
         return obs == spec
     return _directive_spec(case, obs)
 
@@ -1360,7 +1624,11 @@ def nontrivial(case, obs):
     if case['kind'] == 'program':
         return len(case['nodes']) > 1 and len(case['stmts']) >= 2
     if case['kind'] == 'pair':
-        return isinstance(obs, list) and len(obs) == 3 and obs[0] == 0
+        return isinstance(obs, list) and len(obs) in (3, 5) and obs[0] == 0
+    if case['kind'] == 'multi':
+        return len(case['order']) >= 2
+    if case['kind'] == 'nest':
+        return any(it[0] == 'sub' for call_ in case['calls'] for it in call_['body'])
     if case['kind'] == 'directive':
         return isinstance(obs, list) and len(obs) == 2 and sum(1 for r in obs[1] if r[2]) >= 2
     kinds_ = {o[0] for o in case['ops']}
@@ -1385,11 +1653,24 @@ def kinds(case, obs):
             if obs[0] == 0 and case['introspection'] and len(executed) < len(case['stmts']):
                 out.append('program:some-statement-overridden')
         return out
+    if case['kind'] == 'nest':
+        def walk(call_):
+            yield call_
+            for it in call_['body']:
+                if it[0] == 'sub':
+                    yield from walk(it[1])
+        alls = [x for call_ in case['calls'] for x in walk(call_)]
+        return ['nest', 'nest:%d-statements' % len(case['calls'])] + (['nest:failing-call'] if any(x['fails'] for x in alls) else []) \
+            + (['nest:explicit-_info'] if any(x['given'] is not None for x in alls) else []) \
+            + (['nest:uncaught-failure'] if any(it[0] == 'sub' and not it[2] and it[1]['fails'] for x in alls for it in x['body']) else [])
+    if case['kind'] == 'multi':
+        return ['multi', 'multi:%s:%d-values' % (case['name'], len(case['order']))]
     if case['kind'] == 'pair':
         return ['pair', 'pair:' + case['name'] + (':conflict' if isinstance(obs, list) and obs and obs[0] == 1 else '')]
     if case['kind'] == 'directive':
         return ['directive', 'directive:' + case['name']] + (['directive:iterator-argument'] if case.get('iter') else []) \
-            + (['directive:layered-helper-%d' % case['layers']] if case.get('layers') else [])
+            + (['directive:layered-helper-%d' % case['layers']] if case.get('layers') else []) \
+            + (['directive:executed-configuration-text'] if case.get('execd') else [])
     out = ['ops', 'ops-len-%d' % len(case['ops'])]
     for o, r in zip(case['ops'], obs if isinstance(obs, list) else []):
         out.append('op:' + o[0] + (':KeyError' if r == ['K'] else ':ValueError' if r == ['V'] else ''))
